@@ -1,32 +1,53 @@
 import Ptk.Proto
 import Ptk.Model.C07
+import Ptk.Model.C07Multi
 open Ptk Ptk.Py Ptk.Proto Ptk.C07
 
 /-- stack in Python order (bottom first): `<n> (<text> <cur>)*` -/
 def encStack (l : List Buf) : String :=
   encList (fun b => s!"{encStr b.text} {b.cur}") l.reverse
 
+def encPrev (p : Option Nat) : String :=
+  match p with | none => "N" | some h => toString h
+
+def encSt (s : St) : String :=
+  s!"{encStr s.buf.text} {s.buf.cur} U {encStack s.undo} R {encStack s.redo}"
+
 def encK (k : KSt) : String :=
-  let p := match k.prev with | none => "N" | some h => toString h
-  s!"{encStr k.st.buf.text} {k.st.buf.cur} {p} U {encStack k.st.undo} R {encStack k.st.redo}"
+  s!"{encStr k.st.buf.text} {k.st.buf.cur} {encPrev k.prev} U {encStack k.st.undo} R {encStack k.st.redo}"
 
 /-- handler body atoms: `U` (Buffer.undo()), `R` (Buffer.redo()), `S c` (save_to_undo_stack),
     `F` (_fix_vi_cursor_position in navigation mode),
+    `UR` / `RR` (undo() / redo() on a read-only buffer; shipped or fixed behaviour = the regenerated flag),
+    `X text cur` (Buffer.reset(Document(text, cur))),
     `E text cur` (any other body, observed result) -/
 def parseAtoms : List String → Option (List Act)
   | [] => some []
   | "U" :: r => (parseAtoms r).map (Act.undo :: ·)
   | "R" :: r => (parseAtoms r).map (Act.redo :: ·)
   | "F" :: r => (parseAtoms r).map (Act.edit viFix :: ·)
+  | "UR" :: r => (parseAtoms r).map (Act.undoRO Gen.C07.roChecksFirst :: ·)
+  | "RR" :: r => (parseAtoms r).map (Act.redoRO Gen.C07.roChecksFirst :: ·)
   | "S" :: c :: r => do
       let c ← decBool c
       let rest ← parseAtoms r
       pure (Act.save c :: rest)
+  | "X" :: t :: c :: r => do
+      let t ← decStr t
+      let c ← decNat c
+      let rest ← parseAtoms r
+      pure (Act.reset { text := t, cur := c } :: rest)
   | "E" :: t :: c :: r => do
       let t ← decStr t
       let c ← decNat c
       let rest ← parseAtoms r
       pure (Act.edit (fun _ => { text := t, cur := c }) :: rest)
+  | _ => none
+
+def parseOutcome : String → Option Outcome
+  | "ok" => some .ok
+  | "ro" => some .readOnly
+  | "raised" => some .raised
   | _ => none
 
 def apiAct : List String → Option Act
@@ -42,6 +63,8 @@ def apiAct : List String → Option Act
   | ["save", c] => do pure (.save (← decBool c))
   | ["undo"] => some .undo
   | ["redo"] => some .redo
+  | ["undoro"] => some (.undoRO Gen.C07.roChecksFirst)
+  | ["redoro"] => some (.redoRO Gen.C07.roChecksFirst)
   | ["reset", t, c] => do pure (.reset { text := (← decStr t), cur := (← decNat c) })
   | _ => none
 
@@ -57,12 +80,25 @@ def parseEKey : List String → Option EKey
   | ["c-_"] => some .undo
   | ["c-x_c-u"] => some .undoXU
   | ["f12"] => some .redo
+  | ["c-a"] => some .ctrlA
+  | ["c-e"] => some .ctrlE
+  | ["c-b"] => some .ctrlB
+  | ["c-f"] => some .ctrlF
+  | ["c-u"] => some .ctrlU
   | _ => none
 
 def parseVKey : String → Option VKey
   | "i" => some .i | "a" => some .a | "x" => some .x | "u" => some .u
+  | "A" => some .bigA | "X" => some .bigX | "2" => some .d2 | "3" => some .d3
   | "escape" => some .escape | "f12" => some .redo
   | _ => none
+
+def rowLine (name keys : String) : String :=
+  match Gen.C07.table.filter (fun r => r.name == name && r.keys == keys) with
+  | [] => "none"
+  | rs => " ".intercalate (rs.map fun r => s!"{encBool r.r0}{encBool r.r1}{r.kind}")
+
+def strOf (t : Text) : String := String.ofList t
 
 def stepLineK (k : KSt) (toks : List String) : KSt × String :=
   match toks with
@@ -74,33 +110,134 @@ def stepLineK (k : KSt) (toks : List String) : KSt × String :=
     match decStr t, decNat c with
     | some t, some c => let k' := kInit { text := t, cur := c }; (k', encK k')
     | _, _ => (k, "bad-op")
+  | ["restart", t, c] =>
+    match decStr t, decNat c with
+    | some t, some c => let k' := restart { text := t, cur := c } k; (k', encK k')
+    | _, _ => (k, "bad-op")
+  | ["ext", t, c] =>
+    match decStr t, decNat c with
+    | some t, some c => let k' := extEdit (fun _ => { text := t, cur := c }) k; (k', encK k')
+    | _, _ => (k, "bad-op")
   | ["kpreset"] => let k' := kpReset k; (k', encK k')
   | ["cpr"] => let k' := cprResponse k; (k', encK k')
+  | ["row", n, ks] =>
+    match decStr n, decStr ks with
+    | some n, some ks => (k, rowLine (strOf n) (strOf ks))
+    | _, _ => (k, "bad-op")
+  | ["roflag"] => (k, encBool Gen.C07.roChecksFirst)
+  | ["rowhas", n, ks, bits] =>
+    match decStr n, decStr ks with
+    | some n, some ks =>
+      (k, encBool ((Gen.C07.table.filter (fun r => r.name == strOf n && r.keys == strOf ks)).any
+        (fun r => s!"{encBool r.r0}{encBool r.r1}{r.kind}" == bits)))
+    | _, _ => (k, "bad-op")
   | "call" :: h :: r0 :: r1 :: atoms =>
     match decNat h, decBool r0, decBool r1, parseAtoms atoms with
     | some h, some r0, some r1, some body =>
       let k' := callHandler h (fun rep => if rep then r1 else r0) body k
       (k', encK k')
     | _, _, _, _ => (k, "bad-op")
+  | "callo" :: o :: h :: r0 :: r1 :: atoms =>
+    match parseOutcome o, decNat h, decBool r0, decBool r1, parseAtoms atoms with
+    | some o, some h, some r0, some r1, some body =>
+      let k' := callHandlerO o h (fun rep => if rep then r1 else r0) body k
+      (k', encK k')
+    | _, _, _, _, _ => (k, "bad-op")
   | _ =>
     match apiAct toks with
     | some a => let k' := { k with st := act k.st a }; (k', encK k')
     | none => (k, "bad-op")
 
-/-- driver state: the key-processor state plus the Vi input mode (used by `vinit` / `vkey` only) -/
-def stepLine (v : VSt) (toks : List String) : VSt × String :=
+/-! ### several buffers -/
+
+def encM (n : Nat) (m : MSt) : String :=
+  s!"F {m.focus} P {encPrev m.prev}" ++
+    (List.range n).foldl (fun acc i => acc ++ s!" | {encSt (m.bufs i)}") ""
+
+/-- `(<buffer> <number of atom tokens> <atom tokens>)*` -/
+partial def parseParts : List String → Option (List (Nat × List Act))
+  | [] => some []
+  | b :: n :: rest => do
+      let b ← decNat b
+      let n ← decNat n
+      let acts ← parseAtoms (rest.take n)
+      let more ← parseParts (rest.drop n)
+      pure ((b, acts) :: more)
+  | _ => none
+
+def partsOn (ps : List (Nat × List Act)) (i : Nat) : List Act :=
+  (ps.filter (fun p => p.1 == i)).flatMap (·.2)
+
+structure DS where
+  v : VSt
+  n : Nat
+  m : MSt
+
+def stepLineM (d : DS) (toks : List String) : Option (DS × String) :=
+  match toks with
+  | "minit" :: f :: docs => do
+      let f ← decNat f
+      let rec go : List String → Option (List Buf)
+        | [] => some []
+        | t :: c :: r => do
+            let t ← decStr t
+            let c ← decNat c
+            let rest ← go r
+            pure ({ text := t, cur := c } :: rest)
+        | _ => none
+      let ds ← go docs
+      let m := mInit (fun i => ds.getD i { text := [], cur := 0 }) f
+      pure ({ d with n := ds.length, m := m }, encM ds.length m)
+  | "mcall" :: o :: h :: r0 :: r1 :: f :: parts => do
+      let o ← parseOutcome o
+      let h ← decNat h
+      let r0 ← decBool r0
+      let r1 ← decBool r1
+      let f ← if f == "-" then some none else (decNat f).map some
+      let ps ← parseParts parts
+      let m := callHandlerM o h (fun rep => if rep then r1 else r0) ⟨partsOn ps, f⟩ d.m
+      pure ({ d with m := m }, encM d.n m)
+  | ["mext", b, t, c] => do
+      let b ← decNat b
+      let t ← decStr t
+      let c ← decNat c
+      let m := extEditM b (fun _ => { text := t, cur := c }) d.m
+      pure ({ d with m := m }, encM d.n m)
+  | ["mfocus", b] => do
+      let b ← decNat b
+      let m := extFocusM b d.m
+      pure ({ d with m := m }, encM d.n m)
+  | "mact" :: b :: atoms => do
+      let b ← decNat b
+      let acts ← parseAtoms atoms
+      let m := { d.m with bufs := setBuf d.m.bufs b (acts.foldl act (d.m.bufs b)) }
+      pure ({ d with m := m }, encM d.n m)
+  | ["mkpreset"] => let m := kpResetM d.m; some ({ d with m := m }, encM d.n m)
+  | ["mcpr"] => some (d, encM d.n d.m)
+  | _ => none
+
+/-- driver state: the key-processor state plus the Vi input mode and argument (used by `vinit` / `vkey` only),
+    and a multi-buffer application (used by the `m…` ops only) -/
+def encV (v : VSt) : String :=
+  encK v.k ++ (if v.ins then " I" else " N") ++ " " ++ (match v.arg with | none => "-" | some n => toString n)
+
+def stepLine (d : DS) (toks : List String) : DS × String :=
   match toks with
   | ["vinit", t, c] =>
     match decStr t, decNat c with
-    | some t, some c => let v' := vInit { text := t, cur := c }; (v', encK v'.k ++ " I")
-    | _, _ => (v, "bad-op")
+    | some t, some c => let v' := vInit { text := t, cur := c }; ({ d with v := v' }, encV v')
+    | _, _ => (d, "bad-op")
   | ["vkey", name] =>
     match parseVKey name with
-    | some key => let v' := vkey v key; (v', encK v'.k ++ (if v'.ins then " I" else " N"))
-    | none => (v, "bad-op")
+    | some key => let v' := vkey d.v key; ({ d with v := v' }, encV v')
+    | none => (d, "bad-op")
   | ["vcpr"] =>
-    let v' : VSt := { k := cprResponse v.k, ins := v.ins }
-    (v', encK v'.k ++ (if v'.ins then " I" else " N"))
-  | _ => let p := stepLineK v.k toks; ({ k := p.1, ins := v.ins }, p.2)
+    let v' : VSt := { d.v with k := cprResponse d.v.k }
+    ({ d with v := v' }, encV v')
+  | _ =>
+    match stepLineM d toks with
+    | some r => r
+    | none => let p := stepLineK d.v.k toks; ({ d with v := { d.v with k := p.1 } }, p.2)
 
-def main : IO Unit := runS stepLine (vInit { text := [], cur := 0 })
+def main : IO Unit :=
+  runS stepLine { v := vInit { text := [], cur := 0 }, n := 0, m := mInit (fun _ => { text := [], cur := 0 }) 0 }
